@@ -1,5 +1,8 @@
 #!/bin/sh
-# usage: tools/lake.sh build <targets…>   — lake in /verif/lean under the shared build lock
+# usage: tools/lake.sh build <targets…>   — lake in /verif/lean under a per-property build lock
+# (the lock name is derived from the first Cxx found in the targets, so different properties build
+# in parallel while two builds of the same property are serialised)
 V=$(cd "$(dirname "$0")/.." && pwd)
 mkdir -p $V/build
-exec flock $V/build/.lake.lock sh -c "cd $V/lean && lake $*"
+K=$(echo "$*" | grep -o 'C[0-9][0-9]' | head -1)
+exec flock $V/build/.lake.lock.${K:-shared} sh -c "cd $V/lean && lake $*"
